@@ -250,7 +250,8 @@ func commentCarve(fs *mon.Findings, f *syntax.File, o POpts) string {
 			}
 			if len(x.X.Comments) > 0 || len(x.Y.Comments) > 0 {
 				for _, anc := range stack {
-					if _, ok := anc.(*syntax.ProcSubst); ok {
+					switch anc.(type) {
+					case *syntax.ProcSubst, *syntax.CmdSubst:
 						hit("C05-comment-in-binary-in-procsubst")
 					}
 				}
